@@ -666,6 +666,11 @@ class ModuleLoader(BaseLoader):
 
     @staticmethod
     def get_template_key(name: str) -> str:
+        # "/a.html", "./a.html" and "x//a.html" name the same template for
+        # the loaders that read the source from a file system or a package
+        # (split_template_path); the compiled module is found under the
+        # same spellings.
+        name = "/".join(p for p in name.split("/") if p and p != ".")
         return "tmpl_" + sha1(name.encode("utf-8")).hexdigest()
 
     @staticmethod
